@@ -118,6 +118,9 @@ func TestVerifC23(t *testing.T) {
 			g + "{\n  some code\n}\n",                               // syntax error on a token that spans lines
 			g + "%expect\n 3;\n%expect\n    4;\n",                   // duplicate directive written over two lines
 			strings.Replace(g, "language g(go);", "language g(\n go\n);", 1) + "Extra: id id2 ;\n",
+			// a space terminal declared again without (space): the diagnostic has no attribute node to
+			// point at and must still carry a range inside the document (seeded change C23-r11m2)
+			strings.Replace(g, "sp: /[ ]+/ (space)\n", "sp: /[ ]+/ (space)\nsp: /[\\t]+/\n", 1),
 		}
 	}
 	checkDiag := func(ck *vCheck, desc, content string, p *lsp.PublishDiagnosticsParams) {
@@ -252,8 +255,13 @@ func TestVerifC23(t *testing.T) {
 			s := NewServer(zap.NewNop())
 			s.SetClient(cl)
 			u := uri.File("/u.tm")
-			s.DidOpen(ctx, &lsp.DidOpenTextDocumentParams{TextDocument: lsp.TextDocumentItem{URI: u, Version: 1, Text: content}})
 			desc := fmt.Sprintf("prefix %q variant %d", pfx, vi)
+			if p := vRecover(func() {
+				s.DidOpen(ctx, &lsp.DidOpenTextDocumentParams{TextDocument: lsp.TextDocumentItem{URI: u, Version: 1, Text: content}})
+			}); p != "" {
+				out.Failf(desc, "DidOpen panicked: %s", p)
+				continue
+			}
 			out.Sample(desc)
 			// incoming: cursor on the reference given in UTF-16 units; outgoing: the declaration range
 			ref := strings.Index(content, "id n")
@@ -289,5 +297,58 @@ func TestVerifC23(t *testing.T) {
 			}
 		}
 	}
-	vWrite(t, []string{"handlers are called sequentially (no claim under concurrent delivery over the jsonrpc2 connection)"}, in, st, out)
+	// identifiers that are themselves non-ASCII (quoted terminals): both ends of every location are
+	// UTF-16 columns and enclose exactly the identifier (seeded change C23-r11m1 measured the end in bytes)
+	qd := vNew("C23/non-ascii-identifiers", "a grammar with the quoted terminals 'é' and '😀' declared and referenced (also last on their line): every location returned for them, asked from a reference and from the declaration", false, "id.Location", "Server.Definition")
+	{
+		content := "language g(go);\n\n:: lexer\n\n'é': /e/\n'\U0001F600': /y/\nid: /[a-z]+/\n\n:: parser\n\ninput: id 'é' '\U0001F600' 'é'\n  | '\U0001F600';\n"
+		cl := &c23client{}
+		s := NewServer(zap.NewNop())
+		s.SetClient(cl)
+		u := uri.File("/q.tm")
+		s.DidOpen(ctx, &lsp.DidOpenTextDocumentParams{TextDocument: lsp.TextDocumentItem{URI: u, Version: 1, Text: content}})
+		for _, name := range []string{"'é'", "'\U0001F600'"} {
+			decl := strings.Index(content, name+":")
+			rule := strings.Index(content, "input:")
+			for ref := rule; ; {
+				k := strings.Index(content[ref:], name)
+				if k < 0 {
+					break
+				}
+				ref += k
+				for _, at := range []int{decl + 1, ref + 1} {
+					qd.Case(true)
+					var got []lsp.Location
+					var err error
+					if p := vRecover(func() {
+						got, err = s.Definition(ctx, &lsp.DefinitionParams{TextDocumentPositionParams: lsp.TextDocumentPositionParams{
+							TextDocument: lsp.TextDocumentIdentifier{URI: u}, Position: c23pos(content, at)}})
+					}); p != "" {
+						qd.Failf(name, "Definition panicked: %s", p)
+						continue
+					}
+					if err != nil || len(got) == 0 {
+						qd.Failf(name, "Definition at byte %d = %v (err %v), want at least one location", at, got, err)
+						continue
+					}
+					for _, loc := range got {
+						so, ok1 := c23resolve(content, loc.Range.Start)
+						eo, ok2 := c23resolve(content, loc.Range.End)
+						if !ok1 || !ok2 || so > eo || content[so:eo] != name {
+							qd.Failf(name, "location %v does not enclose exactly the identifier %s (it selects %q): a column is not in UTF-16 units", loc.Range, name, c23slice(content, so, eo, ok1 && ok2))
+						}
+					}
+				}
+				ref += len(name)
+			}
+		}
+	}
+	vWrite(t, []string{"handlers are called sequentially (no claim under concurrent delivery over the jsonrpc2 connection)"}, in, st, out, qd)
+}
+
+func c23slice(content string, so, eo int, ok bool) string {
+	if !ok || so < 0 || eo > len(content) || so > eo {
+		return "<not a position of the document>"
+	}
+	return content[so:eo]
 }
